@@ -1,4 +1,6 @@
 import GridVerif.Props.C12
+import GridVerif.Props.C12.Listing
+import GridVerif.Props.C12.Logic
 
 #print axioms GridVerif.C12.bisect_left_least_index
 #print axioms GridVerif.C12.resolve_spec
@@ -8,3 +10,23 @@ import GridVerif.Props.C12
 #print axioms GridVerif.C12.size_request
 #print axioms GridVerif.C12.request_above_max_rejected
 #print axioms GridVerif.C12.convert_is_map
+#print axioms GridVerif.C12.gen_body_eq_model
+#print axioms GridVerif.C12.gen_eq_model
+#print axioms GridVerif.C12.gen_malformed_rejected
+#print axioms GridVerif.C12.gen_never_unmodelled
+#print axioms GridVerif.C12.gen_dispatch_iff
+#print axioms GridVerif.C12.gen_dispatch_unknown
+#print axioms GridVerif.C12.listing_names
+#print axioms GridVerif.C12.loader_ok
+#print axioms GridVerif.C12.gen_loader_resolved
+#print axioms GridVerif.C12.gen_degree_request
+#print axioms GridVerif.C12.gen_size_request
+#print axioms GridVerif.C12.gen_request_above_max_rejected
+#print axioms GridVerif.C12.gen_convert_is_map
+#print axioms GridVerif.C12.gen_convert_elementwise
+#print axioms GridVerif.C12.gen_ok_in_table
+#print axioms GridVerif.C12.gen_init_size_overrides_degree
+#print axioms GridVerif.C12.gen_init_resolved
+#print axioms GridVerif.C12.gen_init_degree_request
+#print axioms GridVerif.C12.gen_init_size_request
+#print axioms GridVerif.C12.gen_cache_key_sound
